@@ -435,7 +435,11 @@ pub fn gen_faults(rng: &mut Rng, stream: &Stream, n: usize, enabled: u32) -> Vec
                 }
             }
             11 => {
-                let i = if rng.chance(1, 4) { rng.usize_below(5.min(nwords.max(1))) } else { rng.usize_below(nwords.max(1)) };
+                let i = match rng.below(8) {
+                    0 => 0, // the magic number itself
+                    1 => rng.usize_below(5.min(nwords.max(1))),
+                    _ => rng.usize_below(nwords.max(1)),
+                };
                 let old = words.get(i).cloned().unwrap_or(0);
                 let v = match rng.below(7) {
                     0 => 0,
@@ -446,7 +450,18 @@ pub fn gen_faults(rng: &mut Rng, stream: &Stream, n: usize, enabled: u32) -> Vec
                         let g = &s.insts[rng.usize_below(s.insts.len())];
                         (rng.range(1, 6) as u32) << 16 | g.opcode as u32
                     }
-                    5 => if rng.chance(1, 2) { MAGIC.swap_bytes() } else { MAGIC },
+                    5 => match rng.below(4) {
+                        0 => MAGIC,
+                        1 => MAGIC.swap_bytes(),
+                        _ => {
+                            // any other byte order of the magic number (half-word swapped, rotated, ...)
+                            let mut b = MAGIC.to_le_bytes();
+                            for k in (1..4).rev() {
+                                b.swap(k, rng.usize_below(k + 1));
+                            }
+                            u32::from_le_bytes(b)
+                        }
+                    },
                     _ => old | 0xFFFF_0000,
                 };
                 Fault::Word(i, v)
